@@ -37,7 +37,7 @@ def rand_value(rnd, ty):
     """canonical little-endian value bytes of a fixed-width type"""
     size = STD_TYPES[ty]
     if ty == T_BOOL:
-        return bytes([rnd.choice([0, 1, 1, 0, 1, rnd.getrandbits(8)])])
+        return bytes([rnd.choice([0, 1])])  # other byte values are not canonical under numpy bool scalar conversion
     if ty == T_TIMESTAMP:
         frac = rnd.choice([0, 2 ** 64 - 1, rnd.getrandbits(64), rnd.getrandbits(64), (rnd.randrange(10 ** 6) << 64) // 10 ** 6])
         sec = rnd.choice([0, -1, rnd.randint(-2 ** 31, 2 ** 32), rnd.randint(-2 ** 40, 2 ** 40), 3771234567])
